@@ -21,7 +21,7 @@ for seed in range(12000):
     base=np.arange(n).reshape(shape).astype(float) if which!='shim' else np.array([float(i) for i in range(n)]).reshape(shape)
     cur=base; log=[]
     for step in range(rnd.randint(1,4)):
-        op=rnd.choice(['T','slice','reshape','ravel','copyK','copyC','copyF','add','flat_reshape','squeeze','diag'])
+        op=rnd.choice(['T','slice','reshape','ravel','copyK','copyC','copyF','add','flat_reshape','squeeze','diag','gatherN','gatherB','take'])
         try:
             if op=='T': cur=cur.T
             elif op=='slice':
@@ -38,6 +38,20 @@ for seed in range(12000):
             elif op=='copyF': cur=cur.copy(order='F')
             elif op=='add': cur=cur+1.0
             elif op=='squeeze': cur=cur.squeeze()
+            elif op=='gatherN':
+                if not cur.flags.c_contiguous: continue     # layout of a fancy-index result over a non-contiguous source: not modelled
+                k=rnd.randint(1,3); m=rnd.randint(1,3)
+                idx=np.array([[rnd.randrange(cur.shape[0]) for _ in range(m)] for _ in range(k)])
+                cur=cur[idx]
+            elif op=='gatherB':
+                if cur.ndim<2 or not cur.flags.c_contiguous: continue
+                k=rnd.randint(1,3); m=rnd.randint(1,3)
+                rows=np.array([[rnd.randrange(cur.shape[0])] for _ in range(k)])
+                cols=np.array([rnd.randrange(cur.shape[1]) for _ in range(m)])
+                cur=cur[rows+0*cols, cols]
+            elif op=='take':
+                idx=np.array([rnd.randrange(cur.size) for _ in range(rnd.randint(1,4))])
+                cur=np.take(cur, idx)
             elif op=='diag':
                 if cur.ndim==2: cur=cur.diagonal()
                 else: continue
